@@ -1148,8 +1148,10 @@ def ioport_selfclosing_input_cases(ctx, hook):
             log = []
             dev = [dev_msg(i) for i in range(ndev)]
             pin = RecordingPort('i', log=log, dev=list(dev), batch=batch, close_at=close_at, label='in')
-            pout = RecordingPort('o', log=log, label='out')
+            autoreset = (ndev + len(via)) % 2 == 0
+            pout = RecordingPort('o', log=log, label='out', autoreset=autoreset)
             port = IOPort(pin, pout)
+            case['autoreset'] = autoreset
             hook.arm({}, None, None, limit=40)
             got, ended = [], None
             try:
@@ -1181,6 +1183,29 @@ def ioport_selfclosing_input_cases(ctx, hook):
                 ctx.check('results == lifecycle model', tags == [('d', i) for i in range(len(tags))] and len(tags) >= min(taken, ndev)
                           and len(tags) <= ndev, 'ioport:selfclosing-input-delivery', case, {'delivered': tags, 'ended': ended})
                 ctx.count('blocking call bounded sleeps')
+            # closing the wrapper releases what is still open - the output device, once, after its reset burst - whatever
+            # the input device did by itself; afterwards the wrapper refuses to send
+            try:
+                if via == 'iterate':
+                    with port:
+                        pass
+                else:
+                    port.close()
+                port.close()
+                releases = sum(1 for e in log if e[0] == 'out' and e[1] == '_close')
+                resets = [e for e in log if e[0] == 'out' and e[1] == '_send' and e[2].type == 'control_change']
+                try:
+                    port.send(out_msg(1))
+                    after = 'accepted'
+                except ValueError:
+                    after = 'ValueError'
+                ctx.check('device released exactly once', releases == 1 and pout.closed and port.closed, 'ioport:output-not-released', case,
+                          {'releases': releases, 'output.closed': pout.closed, 'wrapper.closed': port.closed})
+                ctx.check('reset messages once, before release', len(resets) == (32 if autoreset else 0) and all(not e[3] for e in resets),
+                          'ioport:reset-burst', case, len(resets))
+                ctx.check('results == lifecycle model', after == 'ValueError', 'ioport:send-after-close', case, after)
+            except Exception as exc:
+                ctx.fail('device released exactly once', f'ioport:close:{type(exc).__name__}', case, repr(exc))
             for p_ in (port, pin, pout):
                 try:
                     p_.close()
@@ -1346,7 +1371,11 @@ class CloseProgram(c10.Program):
     def build(self, sc, rec):
         self.log = []
         p = RecordingPort('r', log=self.log, autoreset=True)
-        p._lock = sched.SchedLock(sc, p._lock, 'r')
+        # (the port makes its own lock through mido.ports.threading, which is the scheduler-aware stand-in while a
+        # schedule runs - whenever it makes it; the harness does not touch port._lock)
+        lk = vars(p).get('_lock')
+        if lk is not None and not isinstance(lk, sched.SchedLock):
+            p._lock = sched.SchedLock(sc, lk, 'r')
         self.port = p
         self.ports = {}
         self.wires = []
@@ -1462,11 +1491,14 @@ def check_close_history(ctx, sc, prog, case):
 def run_close_schedule(prog, strategy):
     sc = sched.Scheduler(c10.codes(), strategy, max_steps=6000, candidate_files=c10.CANDIDATE_FILES)
     orig = mido.ports.sleep
+    orig_threading = mido.ports.threading
     mido.ports.sleep = sc.sleep
+    mido.ports.threading = c10.LockShim(sc, orig_threading)
     try:
         sc.run(prog.build(sc, None), wall_timeout=30.0)
     finally:
         mido.ports.sleep = orig
+        mido.ports.threading = orig_threading
     return sc
 
 
